@@ -16,19 +16,93 @@ def encSpec : Spec.Outcome → List String
   | .notFound => ["N"]
   | .methodNotAllowed allow => ["M"] ++ encStrs (sortStrs allow)
 
-/-- line: `table method path pvlen` → outcome of the radix-tree model (L3 `find ∘ build`), then
+/-! ## the router used directly on a context the application made (`Echo.NewContext` + `Router.Find`)
+
+`Router.Find` is public and works on whatever context it is handed: one created with `Echo.NewContext` before
+further routes were registered (its value slice has the length `maxParam` had then), one whose values the
+application has set (`SetParamValues`), one that has served an earlier lookup and was not reset.  Only the value
+slice matters for what the next lookup does; the other fields (`handler`, `path`, `pnames`) are overwritten by
+every lookup that matches anything at all and are put back by the application otherwise. -/
+
+inductive CtxOp where
+  | newCtx (k : Nat)            -- `Echo.NewContext` when the first `k` routes of the table are registered
+  | setVals (vs : List Str)     -- `Context.SetParamValues(vs...)`
+  | setNames (n : Nat)          -- `Context.SetParamNames` with `n` names
+  | find (m p : Str)            -- `Router.Find(m, p, ctx)`, all routes registered
+  | reset                       -- `Context.Reset`, all routes registered
+deriving Repr, Inhabited
+
+/-- `Context.SetParamValues` (context.go:360-370): a longer list replaces the slice (old content dropped), a shorter
+    one overwrites the front -/
+def setParamValues (pv vs : List Str) : List Str :=
+  if vs.length > pv.length then vs else vs ++ pv.drop vs.length
+
+/-- `Context.SetParamNames` (context.go:343-354): the slice grows to the number of names, keeping its content -/
+def setParamNames (pv : List Str) (n : Nat) : List Str :=
+  pv ++ List.replicate (n - pv.length) []
+
+/-- `Context.Reset` (context.go:647-669): every value blank, the slice re-made when shorter than `maxParam` -/
+def resetVals (t : List Route) (pv : List Str) : List Str :=
+  List.replicate (max pv.length (maxParam t)) []
+
+/-- the value slice after `Router.Find`; `none`: the lookup indexed out of range (Go panics) -/
+def findVals (t : List Route) (m p : Str) (pv : List Str) : Option (List Str) :=
+  let st := (findNode p m (build t) ⟨0, 0, pv, none, false⟩).1
+  if st.panicked then none else some st.pv
+
+def stepCtx (t : List Route) (pv : List Str) : CtxOp → Option (List Str)
+  | .newCtx k => some (List.replicate (maxParam (t.take k)) [])
+  | .setVals vs => some (setParamValues pv vs)
+  | .setNames n => some (setParamNames pv n)
+  | .find m p => findVals t m p pv
+  | .reset => some (resetVals t pv)
+
+/-- the slice after a sequence of context operations (`none`: one of the lookups panicked) -/
+def runCtx (t : List Route) : List Str → List CtxOp → Option (List Str)
+  | pv, [] => some pv
+  | pv, op :: ops => match stepCtx t pv op with
+    | some pv' => runCtx t pv' ops
+    | none => none
+
+/-- what the probed lookup gives after the context operations `ops` (starting from a context made with all routes
+    registered) -/
+def findAfter (t : List Route) (ops : List CtxOp) (m p : Str) : Outcome :=
+  match runCtx t (List.replicate (maxParam t) []) ops with
+  | some pv => find (build t) m p pv
+  | none => .panic
+
+def pCtxOp : P CtxOp := do
+  let k ← tok
+  match k with
+  | "N" => do let n ← nat; pure (.newCtx n)
+  | "V" => do let vs ← list str; pure (.setVals vs)
+  | "M" => do let n ← nat; pure (.setNames n)
+  | "F" => do let m ← str; let p ← str; pure (.find m p)
+  | "R" => pure .reset
+  | _ => failure
+
+/-- line: `table method path pvlen nops op*` → outcome of the radix-tree model (L3 `find ∘ build`), then
     `//`, then the outcome of the order-free reference search (L1) the theorems are about: the
-    real router is compared with both on every case -/
+    real router is compared with both on every case.  With `nops = 0` the request goes through `ServeHTTP` (a
+    freshly reset context of `max pvlen maxParam` slots); otherwise the router is used directly on a context
+    prepared by the operations. -/
 def runLine (line : String) : String :=
-  match parseLine (do let t ← pTable; let m ← str; let p ← str; let n ← nat; pure (t, m, p, n)) line with
+  match parseLine (do let t ← pTable; let m ← str; let p ← str; let n ← nat; let ops ← list pCtxOp
+                      pure (t, m, p, n, ops)) line with
   | none => "bad-op"
-  | some (t, m, p, n) =>
+  | some (t, m, p, n, ops) =>
     -- translation validation of `Router.build` for this table: the tree satisfies the invariant of
     -- the refinement theorem (TI) and represents exactly the table in force (RS: the registered entries,
     -- a re-registered route replacing its earlier registration)
     let inv := Tree.tableInvariantD t
-    render (encOutcome (find (build t) m p (List.replicate (max n (maxParam t)) []))
-      ++ ["//"] ++ encSpec (Spec.routeTable (Tree.dedupLast t) m p)
+    let out := if ops.isEmpty then find (build t) m p (List.replicate (max n (maxParam t)) [])
+               else findAfter t ops m p
+    render (encOutcome out
+      -- (a lookup on a context with fewer value slots than `maxParam` may index out of range: the reference search
+      --  has no counterpart of that, nothing is compared then)
+      ++ ["//"] ++ (match ops.isEmpty, out with
+                    | false, .panic => ["P"]
+                    | _, _ => encSpec (Spec.routeTable (Tree.dedupLast t) m p))
       ++ ["//", if inv.1 then "TI1" else "TI0", if inv.2 then "RS1" else "RS0",
           -- a well-formed table must pass both (the statement of the insert-correctness theorem)
           if Tree.okTable t then (if (inv.1 || t.isEmpty) && inv.2 then "WF1" else "WF-BUT-INVARIANT-FAILS") else "WF0"])
